@@ -2,6 +2,7 @@
 # tools/regress_seeds.sh [seed-dir-prefix ...]
 # for every seeded change under /verif/seeded (or those whose name starts with a given prefix) run the checks
 # named in its meta.json ("detected_by") against a scratch worktree carrying the change; prints one line per
+# OWN_ONLY="C11 C14" restricts the named (expensive) checks to the seeds written for them.
 # (seed, check): CAUGHT (exit 1 with VIOLATION lines) / MISSED (exit 0) / UNDECIDED (exit 2) / NOAPPLY
 cd "$(dirname "$0")/.." || exit 2
 for d in seeded/*/; do
@@ -11,6 +12,7 @@ for d in seeded/*/; do
   if grep -q neutralised_by "$d/meta.json"; then echo "$name: neutralised by a later fix (see meta.json), skipped"; continue; fi
   if echo "$name" | grep -q "pyx"; then echo "$name: .pyx demo (see DESIGN 10.5), skipped"; continue; fi
   for c in $ids; do
+    case " $OWN_ONLY " in *" $c "*) case "$name" in $c*) ;; *) echo "$name $c skipped (OWN_ONLY)"; continue;; esac;; esac
     out=$(./tools/try_seed.sh "$d/patch.diff" $c 2>&1)
     if echo "$out" | grep -q "patch does not apply"; then echo "$name $c NOAPPLY"; continue; fi
     rc=$(echo "$out" | grep -o "exit=[0-9]*" | head -1 | cut -d= -f2)
